@@ -32,6 +32,9 @@
 (*    every tag (map order); a tag naming an identifier that is not a       *)
 (*    manifest of the content is an ERROR at that point: blobs, manifests   *)
 (*    and the tags visited before it stay pushed.                           *)
+(*  PushContent does this for one repository after the other (map order)    *)
+(*  and stops at the first error: repositories visited before it stay       *)
+(*  pushed, the others are not touched (judged in OciTestTrace, ExpectOK).  *)
 (*                                                                         *)
 (* The first part of the module is pure (operators on a content C): the     *)
 (* declarative statement of what can be completed and the outcome.  The     *)
